@@ -38,6 +38,12 @@ static void put(Out& o, const Vector& v)
 	for(unsigned i = 0; i < v.Size(); i++)
 		o << v[i];
 }
+// conformable requests cannot reach a guard: run in-process (check.py re-runs the remainder of the stream with
+// HZ_FORK_ALL=1 should the process die anyway); everything else runs in a forked child
+static std::string run_if(bool conformable, const std::function<void(Out&)>& body)
+{
+	return conformable ? run(body) : run_forked(body);
+}
 static void need(bool ok)
 {
 	if(!ok)
@@ -53,7 +59,7 @@ std::string handle(const std::string& op, Args& a)
 		a.end();
 		need(sp == "m" || sp == "o" || sp == "a");
 		bool plus = op == "c04.plus";
-		return run_forked([&](Out& o) {
+		return run_if(A.Rows() == B.Rows() && A.Columns() == B.Columns() && A.Rows() > 0, [&](Out& o) {
 			if(sp == "m")
 				put(o, plus ? A.Plus(B) : A.Minus(B));
 			else if(sp == "o")
@@ -75,7 +81,7 @@ std::string handle(const std::string& op, Args& a)
 		Matrix A = rd_mat(a), B = rd_mat(a);
 		a.end();
 		need(sp == "m" || sp == "o");
-		return run_forked([&](Out& o) { put(o, sp == "m" ? A.Product(B) : A * B); });
+		return run_if(A.Columns() == B.Rows(), [&](Out& o) { put(o, sp == "m" ? A.Product(B) : A * B); });
 	}
 	if(op == "c04.smul")
 	{
@@ -102,14 +108,14 @@ std::string handle(const std::string& op, Args& a)
 		Vector v	   = rd_vec(a);
 		a.end();
 		need(sp == "m" || sp == "o");
-		return run_forked([&](Out& o) { put(o, sp == "m" ? A.Product(v) : A * v); });
+		return run_if(A.Columns() == v.Size(), [&](Out& o) { put(o, sp == "m" ? A.Product(v) : A * v); });
 	}
 	if(op == "c04.vecmat")
 	{
 		Vector v = rd_vec(a);
 		Matrix A = rd_mat(a);
 		a.end();
-		return run_forked([&](Out& o) { put(o, v * A); });
+		return run_if(A.Rows() == v.Size(), [&](Out& o) { put(o, v * A); });
 	}
 	if(op == "c04.transpose")
 	{
@@ -210,7 +216,7 @@ std::string handle(const std::string& op, Args& a)
 		Vector u = rd_vec(a), v = rd_vec(a);
 		a.end();
 		need(sp == "m" || sp == "o");
-		return run_forked([&](Out& o) { o << (sp == "m" ? u.Dot(v) : u * v); });
+		return run_if(u.Size() == v.Size(), [&](Out& o) { o << (sp == "m" ? u.Dot(v) : u * v); });
 	}
 	if(op == "c04.cross")
 	{
@@ -225,7 +231,7 @@ std::string handle(const std::string& op, Args& a)
 		a.end();
 		need(sp == "o" || sp == "a");
 		bool plus = op == "c04.vadd";
-		return run_forked([&](Out& o) {
+		return run_if(u.Size() == v.Size(), [&](Out& o) {
 			if(sp == "o")
 				put(o, plus ? u + v : u - v);
 			else
@@ -297,7 +303,7 @@ std::string handle(const std::string& op, Args& a)
 	{
 		Matrix A = rd_mat(a), B = rd_mat(a);
 		a.end();
-		return run_forked([&](Out& o) {
+		return run_if(A.Columns() == B.Rows() && A.Rows() > 0 && B.Columns() > 0 && A.Columns() > 0, [&](Out& o) {
 			Matrix AB	= A * B;
 			Matrix BtAt = B.Transpose() * A.Transpose();
 			o << (int) (AB.Transpose() == BtAt);
